@@ -697,7 +697,9 @@ def rule_read(c, prog, g, dreach):
             if y.get("k") == "If":
                 cmp_ = [z for z in core.walk(y["c"]) if z.get("k") == "Binary" and z["op"] in ("!=", "==", "<", ">", "<=", ">=")]
                 lens = [z for b in cmp_ for z in core.walk(b) if z.get("k") == "MethodCall" and z["m"] == "len" and core.strip(z["recv"]).get("lid") in d]
-                rets = [z for z in core.walk(y) if z.get("k") == "Ret" and z.get("e") is not None and "Err" in core.fingerprint(z["e"], 3) and not is_try_ret(y, z)]
+                # one side of the test fails the decode: `return Err(..)` or an `Err(..)` value of the branch
+                rets = [z for br in (y["t"], y.get("f")) if br is not None for z in core.walk(br)
+                        if z.get("k") == "Call" and (core.callee(z) or "").endswith("result::Result::Err") and not any(core.as_try(w) is not None and any(v is z for v in core.walk(w)) for w in core.walk(br))]
                 if lens and rets:
                     return True
         return False
